@@ -151,6 +151,34 @@ func errEdge(b *ssa.BasicBlock, i int) bool {
 	return false
 }
 
+
+// isEnterScope / isExitScope: the parser's scope bracket by signature, not by name:
+// enter: func (p *Parser) _(*Scope, bool) *Scope      exit: func (p *Parser) _(*Scope)
+func isScopePtr(t types.Type) bool {
+	p, ok := t.(*types.Pointer)
+	if !ok {
+		return false
+	}
+	n, ok := p.Elem().(*types.Named)
+	return ok && n.Obj().Name() == "Scope"
+}
+
+func isEnterScope(f *ssa.Function) bool {
+	if f == nil || recvName(f) != "Parser" {
+		return false
+	}
+	sig := f.Signature
+	return sig.Params().Len() == 2 && sig.Results().Len() == 1 && isScopePtr(sig.Params().At(0).Type()) && isScopePtr(sig.Results().At(0).Type())
+}
+
+func isExitScope(f *ssa.Function) bool {
+	if f == nil || recvName(f) != "Parser" {
+		return false
+	}
+	sig := f.Signature
+	return sig.Params().Len() == 1 && sig.Results().Len() == 0 && isScopePtr(sig.Params().At(0).Type())
+}
+
 // pstate is one path state of the small typestate analyses: a vector of small
 // counters plus the error flag.
 type pstate struct {
@@ -299,15 +327,15 @@ func runScope(r *core.Run) {
 				if f == nil || recvName(f) != "Parser" {
 					continue
 				}
-				switch f.Name() {
-				case "enterScope":
+				switch {
+				case isEnterScope(f):
 					enters = append(enters, c)
-				case "exitScope":
+				case isExitScope(f):
 					exits = append(exits, c)
 				}
 			}
 		}
-		if fn.Name() == "enterScope" || fn.Name() == "exitScope" {
+		if isEnterScope(fn) || isExitScope(fn) {
 			continue
 		}
 		for _, x := range exits {
@@ -347,7 +375,7 @@ func runScope(r *core.Run) {
 					s.v[idx] = 1
 					return s
 				}
-				if f := c.Call.StaticCallee(); f != nil && recvName(f) == "Parser" && f.Name() == "exitScope" && c.Call.Args[1] == ssa.Value(e) {
+				if f := c.Call.StaticCallee(); f != nil && isExitScope(f) && c.Call.Args[1] == ssa.Value(e) {
 					if s.v[idx] != 1 && !s.err && bad == "" {
 						bad = "exitScope can run although the scope is not open (exited twice, or before being entered)"
 						badPos = c.Pos()
@@ -687,11 +715,11 @@ func runMark(r *core.Run) {
 		pathFlow(f, pstate{}, func(s pstate, in ssa.Instruction) pstate {
 			if c, ok := in.(*ssa.Call); ok {
 				if g := c.Call.StaticCallee(); g != nil && recvName(g) == "Parser" {
-					switch g.Name() {
-					case "enterScope":
+					switch {
+					case isEnterScope(g):
 						s.v[1] = clamp(s.v[1] + 1)
 						return s
-					case "exitScope":
+					case isExitScope(g):
 						s.v[1] = clamp(s.v[1] - 1)
 						return s
 					}
@@ -731,7 +759,7 @@ func runMark(r *core.Run) {
 		for _, b := range fn.Blocks {
 			for _, in := range b.Instrs {
 				if c, ok := in.(*ssa.Call); ok {
-					if f := c.Call.StaticCallee(); f != nil && recvName(f) == "Parser" && f.Name() == "enterScope" {
+					if f := c.Call.StaticCallee(); f != nil && isEnterScope(f) {
 						enters = append(enters, c)
 					}
 				}
@@ -777,7 +805,7 @@ func runMark(r *core.Run) {
 					}
 				}
 				if c, ok := in.(*ssa.Call); ok && s.v[0] == 1 {
-					if f := c.Call.StaticCallee(); f != nil && recvName(f) == "Parser" && f.Name() == "exitScope" && c.Call.Args[1] == ssa.Value(e) {
+					if f := c.Call.StaticCallee(); f != nil && isExitScope(f) && c.Call.Args[1] == ssa.Value(e) {
 						if !s.err && s.v[1] != 1 && bad == "" {
 							bad = fmt.Sprintf("a non-error path leaves the loop scope at %s after %d calls of MarkForStmt", r.Prog.Position(c.Pos()), s.v[1])
 							badPos = c.Pos()
